@@ -72,9 +72,10 @@ prop("C08", "exploration",
           "crate.tracks()/containing_crates() compared with a relation model after each step; non-trivial = at least one "
           "membership operation executed; distinct = new plan digest reaching a new observation hash")
 prop("C09", "exploration",
-     quick=[("crates2", "fast", 2200), ("members2", "fast", 600)],
-     thorough=[("crates2", "fast", 100000), ("members2", "fast", 40000), ("crates2", "san", 3000)],
-     relevant=["op:create_sub_after", "op:create_root_after", "op:set_parent", "op:remove_crate", "op:add_track"],
+     quick=[("crates2", "fast", 2200), ("members2", "fast", 600), ("table", "fast", 1200)],
+     thorough=[("crates2", "fast", 100000), ("members2", "fast", 40000), ("crates2", "san", 3000), ("table", "fast", 60000)],
+     relevant=["op:create_sub_after", "op:create_root_after", "op:set_parent", "op:remove_crate", "op:add_track", "op:p_add", "op:p_update",
+               "op:e_add", "op:e_remove"],
      rule="2.x-only histories of positioned/un-positioned creates, moves, renames, removals and entity add/remove/clear; "
           "listings compared with a sequence model; non-trivial = at least one order-affecting operation; distinct = new plan "
           "digest reaching a new observation hash")
